@@ -17,8 +17,8 @@ func init() { engines["prod"] = &prodEngine{} }
 
 type prodEngine struct{}
 
-// the 9-letter alphabet of the enumerated core
-var coreAlphabet = []int{fOk, fRetryNoAppend, fRetryAfterAppend, fFatal, fOmitBlock, fDropBefore, fDropAfter, fSilent, fLeaderMove}
+// the 10-letter alphabet of the enumerated core
+var coreAlphabet = []int{fOk, fRetryNoAppend, fRetryAfterAppend, fFatal, fOmitBlock, fDropBefore, fDropAfter, fSilent, fLeaderMove, fNoLeader}
 
 type coreCase struct {
 	word  []int
@@ -71,6 +71,80 @@ func coreCases(prop, tier string) []coreCase {
 	return out
 }
 
+// directedScenarios: multi-step histories that random words rarely build —
+// a retry cycle during which fresh messages are parked at level 0, a leaderless
+// window that makes the leader lookup fail when the retried message and the
+// chaser come back, recovery, and a second retry cycle on the same partition.
+type directedCase struct {
+	noLeaderFor int
+	steerK      int
+	second      int // position of the second retriable fault in the word
+	retry       int
+	idem        bool
+	flush       int
+}
+
+func directedCases(prop, tier string) []directedCase {
+	var out []directedCase
+	switch prop {
+	case "C01", "C02", "C05", "C18":
+	default:
+		return nil
+	}
+	// one failing leader lookup costs 2 x (Metadata.Retry.Max+1) = 8 metadata requests (RefreshMetadata, then
+	// Leader's own refresh); the third consecutive failure opens the partition's circuit breaker for 10 s
+	durs := []int{9, 17, 20, 23}
+	if tier == "thorough" {
+		durs = []int{4, 8, 9, 12, 16, 17, 18, 19, 20, 21, 22, 23, 24, 26}
+	}
+	for _, d := range durs {
+		for _, k := range []int{0, 2, 3} {
+			for _, second := range []int{3, 5} {
+				for _, retry := range []int{1, 2} {
+					for _, flush := range []int{0, 2} {
+						idem := prop == "C05"
+						out = append(out, directedCase{d, k, second, retry, idem, flush})
+						if prop == "C01" && retry == 2 && flush == 0 {
+							out = append(out, directedCase{d, k, second, retry, true, flush})
+						}
+					}
+				}
+			}
+		}
+	}
+	return out
+}
+
+func directedScenario(prop string, c directedCase, rng *rand.Rand) *prodScenario {
+	sc := &prodScenario{Brokers: 2, Parts: 1, Topics: []string{"t"}, BaseOffset: 50, Version: sarama.V0_11_0_0, RetryMax: c.retry, Idempotent: c.idem,
+		Acks: sarama.WaitForLocal, Partitioner: "manual", Submitters: 1, CloseMode: "asyncclose", ChannelBuf: -1, NoLeaderFor: c.noLeaderFor}
+	if c.idem {
+		sc.Acks = sarama.WaitForAll
+	}
+	if c.flush > 0 {
+		sc.FlushMessages, sc.FlushFreq = c.flush, 2*time.Millisecond
+	}
+	word := []int{fNoLeader}
+	for len(word) < c.second {
+		word = append(word, fOk)
+	}
+	word = append(word, fRetryNoAppend, fOk, fOk, fRetryNoAppend)
+	sc.Faults = word
+	for _, f := range word {
+		sc.FaultCodes = append(sc.FaultCodes, pickCode(f, rng))
+	}
+	if c.steerK > 0 {
+		sc.Steer = []steerSpec{{Kind: "newhwm-fresh", Nth: 1, K: c.steerK}, {Kind: "newhwm-fresh", Nth: 2, K: 1}}
+	}
+	for i := 0; i < 14; i++ {
+		sc.Msgs = append(sc.Msgs, &msgSpec{ID: i, Topic: "t", Part: 0, N: i, Value: valueFor(i, 3, rng), KeyNil: true, PauseUs: 2500})
+	}
+	if prop == "C18" {
+		sc.Interceptors = []icSpec{{"count"}, {"mutate"}}
+	}
+	return sc
+}
+
 func randomCount(prop, tier string) int {
 	q := map[string]int{"C01": 300, "C02": 400, "C04": 500, "C05": 300, "C16": 300, "C18": 300}
 	t := map[string]int{"C01": 6000, "C02": 6000, "C04": 6000, "C05": 6000, "C16": 5000, "C18": 4000}
@@ -81,7 +155,7 @@ func randomCount(prop, tier string) int {
 }
 
 func (e *prodEngine) Count(prop, tier string, seed int64) int {
-	n := len(coreCases(prop, tier)) + randomCount(prop, tier)
+	n := len(coreCases(prop, tier)) + len(directedCases(prop, tier)) + randomCount(prop, tier)
 	if prop == "C18" {
 		n += consInterceptorCases(tier)
 	}
@@ -209,8 +283,8 @@ func randomScenario(prop string, rng *rand.Rand) *prodScenario {
 		sc.ChannelBuf = rng.Intn(2)
 	}
 	idemOK := sc.Version.IsAtLeast(sarama.V0_11_0_0)
-	// weights per fault letter: ok, retryNoAppend, retryAfterAppend, fatal, omit, dropBefore, dropAfter, silent, leaderMove, leaderMoveLag
-	weights := []int{40, 12, 8, 5, 3, 6, 6, 2, 8, 0}
+	// weights per fault letter: ok, retryNoAppend, retryAfterAppend, fatal, omit, dropBefore, dropAfter, silent, leaderMove, noLeader, leaderMoveLag
+	weights := []int{40, 12, 8, 5, 3, 6, 6, 2, 8, 6, 0}
 	nmsg := 3 + rng.Intn(60)
 	switch prop {
 	case "C02":
@@ -219,10 +293,10 @@ func randomScenario(prop string, rng *rand.Rand) *prodScenario {
 		if rng.Intn(3) == 0 {
 			sc.RetryMax = 0
 		}
-		weights = []int{40, 15, 8, 3, 2, 6, 6, 1, 12, 0}
+		weights = []int{40, 15, 8, 3, 2, 6, 6, 1, 12, 6, 0}
 	case "C05":
 		sc.Idempotent = true
-		weights = []int{40, 10, 14, 5, 2, 5, 10, 3, 8, 0}
+		weights = []int{40, 10, 14, 5, 2, 5, 10, 3, 8, 4, 0}
 	case "C01", "C18":
 		sc.Idempotent = idemOK && rng.Intn(3) == 0
 	}
@@ -316,8 +390,12 @@ func (e *prodEngine) Run(prop, tier string, seed int64, idx int) proto.Rec {
 		rng := rand.New(rand.NewSource(proto.SubSeed(0, idx, "prodcore"+prop)))
 		sc = coreScenario(prop, core[idx], rng)
 		id = fmt.Sprintf("%s/%s/core/%d", prop, tier, idx)
+	} else if dc := directedCases(prop, tier); idx-len(core) < len(dc) {
+		rng := rand.New(rand.NewSource(proto.SubSeed(0, idx, "proddirected"+prop)))
+		sc = directedScenario(prop, dc[idx-len(core)], rng)
+		id = fmt.Sprintf("%s/%s/directed/%d", prop, tier, idx-len(core))
 	} else {
-		k := idx - len(core)
+		k := idx - len(core) - len(directedCases(prop, tier))
 		if prop == "C18" && k >= randomCount(prop, tier) {
 			return runConsInterceptorCase(prop, tier, seed, k-randomCount(prop, tier), idx)
 		}
